@@ -357,6 +357,14 @@ class Check:
         })
         if extra_cov:
             cov.update(extra_cov)
+        # schema guard: `exhaustive` is a boolean in EVIDENCE.schema.json; a descriptive text goes to exhaustive_note
+        if "exhaustive" in cov and not isinstance(cov["exhaustive"], bool):
+            cov["exhaustive_note"] = cov.pop("exhaustive")
+        for k in ("states", "transitions", "traces_validated_against_impl", "programs", "disagreements_checked"):
+            if k in cov and (not isinstance(cov[k], int) or isinstance(cov[k], bool)):
+                cov[k + "_note"] = cov.pop(k)
+        if "explanation" in cov and not isinstance(cov["explanation"], str):
+            cov["explanation"] = json.dumps(cov["explanation"])
         ev = {
             "property_id": self.prop, "tier": self.tier, "seed": self.seed, "level": level,
             "coverage": cov, "assumptions": self.assumptions, "wall_s": round(time.time() - self.t0, 2),
